@@ -76,6 +76,14 @@ CHECKS = {
          'accepted text must be read as the machine reads it, the reported position must lie within the text; seeded random strings, splices and scalar tokens too.',
     ref='DESIGN.md 5/C09', technique='TLA+ mutation operators over ZincWrite documents enumerated by TLC; reader machine ZincRead as the oracle in TLC trace judgement',
     note='non-structural rejections of the machine (calendar ranges, cell counts, unknown tokens, ambiguous escapes) leave hszinc either outcome; 5 s budget per call'),
+
+ 'C10': dict(
+    text='spec/Gate.tla: the grid as a gate machine (version, given, stored kinds) with Accepts(version, kind) decided through Version.tla\'s nearest official version; TLC enumerates every declared '
+         'version x every sequence of <=2 stores (12 public entry paths x 6 kinds) and the constructor paths, checks the gate invariant on the model and prints the expected outcome of each step; every '
+         'case is replayed on a real Grid (outcome, version after, refused store leaves the grid unchanged).  The accept/refuse decision of the five deciders (grid, ZINC/JSON writer, ZINC/JSON reader) '
+         'for 6 versions x 5 kinds is recorded and judged by TLC (Trace_Gate.tla).  GridSeq additionally carries GateInv through arbitrary row-operation histories.',
+    ref='DESIGN.md 5/C10', technique='TLA+ spec Gate (+Version.Nearest) enumerated by TLC, every case replayed on the code; TLC-judged decision table of the five deciders',
+    note='pre-3.0 = nearest official version < 3.0 (pinned by the repository tests); in-place edits of dicts already handed to the grid are outside the API'),
 }
 NOT_YET = {}
 
